@@ -134,6 +134,9 @@ def lines(ctx: fw.Ctx, out: fw.Outcome):
             us = rng.choice([0, rng.randint(0, 10**8), rng.randint(0, 10**14)])
             line = f"{gen.pad(rng, prof)}{tick_s} = A {gen.num(rng, prof, us)}"
             truth = f"anchor {t} {us}"
+        if rng.random() < 0.2:
+            # a line that still carries its line feed (a file object or an open stream handed to from_chart_lines) is the same line
+            cases.append((kind, line + "\n", truth))
         near = rng.random() < 0.25
         if near:  # one-token near miss: must not be accepted as this kind with different values
             line2 = perturb(rng, line)
@@ -205,10 +208,15 @@ def slice(ctx: fw.Ctx) -> fw.Outcome:
     bpm_values(ctx, out)
     lines(ctx, out)
     charts(ctx, out)
+    from .. import direct
+    direct.run(ctx, out, 'sync', gen.Profile(max_tracks=0, max_events=0, unknown_sections=0.0, meta_fields=0.0, exotic_pad=0.2, exotic_digits=0.1))  # every way of handing the section's lines over decodes the same
     return out
 
 
 def replay(ctx: fw.Ctx, data: dict):
+    if data.get("op") == "direct-section":
+        from .. import direct
+        return direct.replay(data)
     if data["op"] == "bpm":
         n = data["n"]
         r = _bpm_impl(n)
